@@ -127,4 +127,9 @@ let () =
       register2 k (fun a impl ->
           let sym = (match String.index_opt impl ':' with Some i -> String.sub impl 0 i | None -> impl) in
           { model = "-"; spec = "same"; cls = if impl = "same" then "" else Printf.sprintf "%s:%s:%s" k a.(0) sym }))
-    ["xtomat"; "xeng"; "rrepeat"; "slinto"; "xcopyov"]
+    ["xtomat"; "xeng"; "rrepeat"; "slinto"; "xcopyov"];
+  (* xtext <format> <variant> <shape>: a refusal when writing is within the statement ("or is refused") *)
+  register2 "xtext" (fun a impl ->
+      let sym = (match String.index_opt impl ':' with Some i -> String.sub impl 0 i | None -> impl) in
+      { model = "-"; spec = (if impl = "werr" then "werr" else "same");
+        cls = if impl = "same" || impl = "werr" then "" else Printf.sprintf "xtext.%s:%s:%s" a.(0) a.(1) sym })
